@@ -329,9 +329,17 @@ def r6(ck):
             opts[(short[1] if df.is_const(short) else None, long_[1] if df.is_const(long_) else None)] = p.split("::")[-1]
     ck.require(opts.get(("p", "strip")) == "optopt", "C16-R6", "-p/--strip takes an argument", "series option table: %s" % opts, rs.where())
     ck.require(opts.get(("R", "reverse")) == "optflag", "C16-R6", "-R/--reverse is a flag", "series option table: %s" % opts, rs.where())
-    closures = [f for f in prog.fns.values() if f.id.startswith(rs.id + "::{closure")]
+    # read_series_file itself, its closures, and closures of helpers it absorbed (their `parent` was re-pointed by the inliner)
+    def in_family(f):
+        cur, hops = f, 0
+        while cur is not None and hops < 6:
+            if cur.id == rs.id or cur.id.startswith(rs.id + "::{closure"):
+                return True
+            cur, hops = prog.fns.get(cur.parent) if cur.parent else None, hops + 1
+        return False
+    closures = [f for f in prog.fns.values() if f.id != rs.id and f.kind == "Closure" and in_family(f)]
     aggs = []
-    for f in closures:
+    for f in closures + [rs]:
         for bb, idx, s in f.stmts():
             if s["k"] == "assign" and s["rv"]["k"] == "agg" and s["rv"].get("adt") == SERIES_PATCH:
                 aggs.append((f, bb, s))
@@ -352,7 +360,7 @@ def r6(ck):
             ck.require(s_ok and r_ok, "C16-R6", "parsed options reach the entry", "SeriesPatch{strip: %s, reverse: %s}" % (df.show(st, 100), df.show(rv, 100)), f.where(s))
     ck.floor("C16-R6", "SeriesPatch constructions from parsed options", n_opt, 1)
     # blank / comment lines are skipped before anything else
-    top = [f for f in closures if f.id == rs.id + "::{closure#0}"]
+    top = [f for f in closures + [rs] if calls_named(f, "<impl str>::split_whitespace")]
     if top:
         f = top[0]
         tests = guards.find_bool_guards(f, lambda e: df.is_call(e, "str>::is_empty", "::is_empty") or (df.is_call(e, "::starts_with") and df.mentions(e, lambda x: df.is_const(x, "#") or x == ("const", 35, "char"))))
